@@ -173,6 +173,71 @@ def two_miners(ctx, res, rng, keys, tree, rn, w, ops, impl, sig_mark, si):
             tree.adopt(cand)
 
 
+def both_miners_solve(ctx, res, rng, keys, tree, rn, w, si):
+    """two miner processes hold candidates on the same head H and both find a solution, one after the other: the first
+    block found extends the head and becomes it; the second is a competitor of it.  Both were found by the node's miner,
+    so both are part of the served chain state afterwards (and stored and broadcast), and the head is still the first.
+    Runs last in a scenario (the model's watcher holds one candidate; it is not driven through this)."""
+    cm = rn.cm
+    head = cm.coinstate.current_chain_hash
+    hd = cm.coinstate.block_by_hash[head]
+    clock = max(node.CLOCK[0], hd.timestamp + 50)
+    node.CLOCK[0] = clock
+    pool = list(cm.transaction_pool)
+    w.coinstate = cm.coinstate
+    cands = []
+    for mid in (0, 1):
+        w.public_key = keys.pks[(si + mid) % 5]
+        found = winning_nonce(cm, pool, w.public_key, clock, rng.randrange(0, 1 << 20))
+        if found is None:
+            res.count("both_miners:no-nonce")
+            return
+        w.sent.clear()
+        try:
+            w.handle_request_scrypt_input_message(mid, found)
+        except Exception as e:
+            res.violations.append({"kind": "assembling a candidate raised", "error": repr(e), "scenario": si})
+            return
+        summary, height = w.sent[-1][1]
+        cands.append((mid, summary, height, consensus.construct_summary_hash(summary, height)))
+    blocks = []
+    info = {"scenario": si, "kind_of_run": "two miners hold candidates on one head; both answers are solutions"}
+    for mid, summary, height, sh in (cands[1], cands[0]):
+        before = set(rn.cm.coinstate.block_by_hash.keys())
+        try:
+            w.handle_scrypt_output_message(mid, sh)
+        except Exception as e:
+            res.violations.append({**info, "kind": "completing miner %d's winning candidate raised: %r" % (mid, e)})
+            return
+        new = [b for h_, b in rn.cm.coinstate.block_by_hash.items() if h_ not in before
+               and b.header.summary.serialize() == summary.serialize()]
+        if not new:
+            if not any(b.header.summary.serialize() == summary.serialize() for b in rn.cm.coinstate.block_by_hash.values()):
+                res.count("both_miners:candidate-differs-from-prediction")
+                return
+        blocks.append(new[0] if new else None)
+    res.case(("both-miners", si, head), nontrivial=True)
+    res.count("both_miners:run")
+    served = rn.cm.coinstate
+    first, second = blocks
+    for nm_, b in (("first", first), ("second", second)):
+        if b is None:
+            continue
+        if b.hash() not in served.block_by_hash:
+            res.violations.append({**info, "kind": "the %s block found by the node's miner is no longer part of the served chain "
+                                                   "state after the other miner's block was found" % nm_,
+                                   "block": b.serialize().hex()})
+        elif b.hash() not in rn.disk_ids():
+            res.violations.append({**info, "kind": "the %s block found was not written to the block store" % nm_})
+    if first is not None and first.hash() in served.block_by_hash and served.current_chain_hash != first.hash() \
+            and second is not None and served.current_chain_hash == second.hash():
+        res.violations.append({**info, "kind": "a found block that does not extend the head (a competitor of the block found "
+                                               "just before) became the head", "block": second.serialize().hex()})
+    for b in blocks:
+        if b is not None and b.hash() in served.block_by_hash:
+            tree.adopt(b)
+
+
 def run(ctx):
     res = kit.Result()
     rng = ctx.rng
@@ -333,6 +398,7 @@ def run(ctx):
             if len(res.samples) < 4:
                 res.sample({"clock_minus_head_ts": delta, "pool": len(pool), "result": r, "height": height})
         two_miners(ctx, res, rng, keys, tree, rn, w, ops, impl, sig_mark, si)
+        both_miners_solve(ctx, res, rng, keys, tree, rn, w, si)
         rn.close()
         model = ctx.driver.ask(ops)
         kit.compare(res, ops, impl, model)
